@@ -60,6 +60,9 @@ structure PM where
   graphs : Tab Nat := []
   /-- `_transition_queue_dict` (`queued='model'`): `id(model)` ↦ pending triggers (empty when idle) -/
   qdict : Tab (List Nat) := []
+  /-- `machine._ident.current == get_ident()`: the calling thread is inside an event of this locked
+      machine (it holds the contexts).  False at rest; true for a snapshot taken from a callback. -/
+  identHeld : Bool := false
   deriving DecidableEq, Repr, Inhabited
 
 def PM.stateOf (M : PM) (m : Nat) : Nat := (alookup m M.mstate).getD 0
@@ -80,12 +83,17 @@ structure Dict where
   /-- `_transition_queue_dict` as the list `[(model, queue)]` of `AsyncMachine.__getstate__`:
       first components are the model *objects* -/
   qstore : Option (Tab (List Nat))
+  /-- `IdentManager.current == get_ident()` as stored in the pickle -/
+  identHeld : Bool
   deriving DecidableEq, Repr, Inhabited
 
 /-- no `__getstate__`: pickle takes `__dict__` as it is -/
 def defaultGetstate (M : PM) : Dict :=
   { models := M.models, mstate := M.mstate, mctx := M.mctx, ctx := some M.ctx, store := none,
-    graphs := some M.graphs, qdict := some M.qdict, qstore := none }
+    graphs := some M.graphs, qdict := some M.qdict, qstore := none,
+    -- `IdentManager.__getstate__` (as repaired, cf88f30) returns `{'current': 0}`: the thread that holds the
+    -- contexts while the snapshot is taken means nothing to the copy
+    identHeld := false }
 
 /-- `LockedMachine.__getstate__`: drop the id-keyed map, store the contexts keyed by model object -/
 def lockedGetstate (M : PM) : Dict :=
@@ -119,12 +127,13 @@ def transport (ρ : Nat → Nat) (d : Dict) : Dict :=
     store := d.store.map fun t => t.map fun e => (ρ e.1, e.2.map ρ)
     graphs := d.graphs
     qdict := d.qdict
-    qstore := d.qstore.map fun t => t.map fun e => (ρ e.1, e.2) }
+    qstore := d.qstore.map fun t => t.map fun e => (ρ e.1, e.2)
+    identHeld := d.identHeld }
 
 /-- no `__setstate__`: `__dict__.update(state)` -/
 def defaultSetstate (d : Dict) : PM :=
   { models := d.models, mstate := d.mstate, mctx := d.mctx, ctx := d.ctx.getD [],
-    graphs := d.graphs.getD [], qdict := d.qdict.getD [] }
+    graphs := d.graphs.getD [], qdict := d.qdict.getD [], identHeld := d.identHeld }
 
 /-- `LockedMachine.__setstate__`: a new map, one entry per model under its *new* id, taken from the
     store (which `__getstate__` filled for exactly these models). -/
@@ -157,7 +166,11 @@ def ren (ρ : Nat → Nat) (M : PM) : PM :=
     mctx := M.mctx.map ρ
     ctx := M.ctx.map fun e => (ρ e.1, e.2.map ρ)
     graphs := M.graphs.map fun e => (ρ e.1, e.2)
-    qdict := M.qdict.map fun e => (ρ e.1, e.2) }
+    qdict := M.qdict.map fun e => (ρ e.1, e.2)
+    identHeld := M.identHeld }
+
+/-- the same machine at rest: nobody is inside an event -/
+def quiesce (M : PM) : PM := { M with identHeld := false }
 
 /-! ### the part of an event that touches the tables -/
 
@@ -188,13 +201,16 @@ inductive Obs
     `model_context_map.get(id(model)) or machine_context` for it -/
 def contexts (k : Kind) (M : PM) (m : Nat) : List Nat :=
   if k.locked then
-    (if k.nested then (if (lookupD m M.ctx).isEmpty then M.mctx else lookupD m M.ctx)
-     else lookupD m M.ctx)
+    -- `if self.machine._ident.current != get_ident(): with nested(...)` — a re-entrant call enters nothing
+    (if M.identHeld then [] else
+      (if k.nested then (if (lookupD m M.ctx).isEmpty then M.mctx else lookupD m M.ctx)
+       else lookupD m M.ctx))
   else []
 
 /-- reading a missing key of the `defaultdict` inserts it -/
 def touch (k : Kind) (M : PM) (m : Nat) : PM :=
-  if k.locked && !k.nested && (alookup m M.ctx).isNone then { M with ctx := M.ctx ++ [(m, [])] } else M
+  if k.locked && !k.nested && !M.identHeld && (alookup m M.ctx).isNone then { M with ctx := M.ctx ++ [(m, [])] }
+  else M
 
 /-- what happens once the contexts are entered -/
 def fire (k : Kind) (δ : Delta) (M : PM) (cs : List Nat) (ep m ev : Nat) : PM × Obs :=
